@@ -285,7 +285,9 @@ def c09(c):
     if c.build_harness() and c.build_driver():
         handler_stream(c)
         generic_monitor(c, "event_check", ["event-check", c.seed, 300 if c.tier == "quick" else 6000], "ev")
-    c.violations = [v for v in c.violations if not str(v["replay"].get("finding_key", "")).startswith(("c08", "c10"))]
+        # the events of a run do not depend on the other output options (t_eval that starts after x0, dense output)
+        generic_monitor(c, "options_check", ["options-check", c.seed, 60 if c.tier == "quick" else 1500], "op")
+    c.violations = [v for v in c.violations if not str(v["replay"].get("finding_key", "")).startswith(("c08", "c10", "c11", "c12"))]
     c.partial = ["'exactly one event in that step' as a statement about whole runs is checked by the monitor (sign pattern of g at the accepted points vs t_events); the theorem gives the per-callback comparison base and the detection of strict changes",
                  "location accuracy of the single root (|t_e − c| ≤ tolerance) is monitored, not proved"]
 
@@ -436,7 +438,7 @@ def c12(c):
         solve_stream(c)
         handler_stream(c)
         generic_monitor(c, "options_check", ["options-check", c.seed, 120 if c.tier == "quick" else 3000], "op")
-    only_keys(c, ("c12",))
+    only_keys(c, ("c12", "c09-events-option"))
     c.partial = ["RK23/RK4 skeletons: observer independence not restated (same `afterCb`; co-simulated); Radau/BDF: monitor only"]
 
 
